@@ -280,12 +280,23 @@ class PDFXRefStream(PDFBaseXRef):
         (_, stream) = parser.nextobject()
         if not isinstance(stream, PDFStream) or stream.get("Type") is not LITERAL_XREF:
             raise PDFNoValidXRef("Invalid PDF stream spec.")
-        size = stream["Size"]
+        size = stream.get("Size")
         index_array = stream.get("Index", (0, size))
+        if not isinstance(index_array, (list, tuple)) or not all(
+            isinstance(x, int) for x in index_array
+        ):
+            raise PDFNoValidXRef("Invalid /Size or /Index in cross-reference stream")
         if len(index_array) % 2 != 0:
             raise PDFSyntaxError("Invalid index number")
+        fields = stream.get("W")
+        if (
+            not isinstance(fields, list)
+            or len(fields) != 3
+            or not all(isinstance(x, int) and x >= 0 for x in fields)
+        ):
+            raise PDFNoValidXRef("Invalid /W in cross-reference stream")
         self.ranges.extend(cast(Iterator[Tuple[int, int]], choplist(2, index_array)))
-        (self.fl1, self.fl2, self.fl3) = stream["W"]
+        (self.fl1, self.fl2, self.fl3) = fields
         assert self.fl1 is not None and self.fl2 is not None and self.fl3 is not None
         self.data = stream.get_data()
         self.entlen = self.fl1 + self.fl2 + self.fl3
